@@ -56,6 +56,15 @@ Theorem C05_basic_discrete_SIS_rho_and_infecteds_rejected : forall g R ord i0 rh
   basic_discrete_SIS_R g R ord (Some i0) (Some rho) tmin tmax full fuel = Fail EoNError.
 Proof. exact dsis_both_rejected. Qed.
 
+(* percolation_based_discrete_SIR: the network is percolated first (the coins are drawn), then
+   discrete_SIR raises EoNError: no result is reachable; the only failures are EoNError or a failure of
+   the transmission rule itself while percolating *)
+Theorem C05_percolation_based_discrete_SIR_rho_and_infecteds_rejected : forall g R ord i0 r0o rho tmin tmax full fuel,
+  (forall out, ~ reach (percolation_based_discrete_SIR_R g R ord (Some i0) r0o (Some rho) tmin tmax full fuel) out) /\
+  (forall e, reach_err (percolation_based_discrete_SIR_R g R ord (Some i0) r0o (Some rho) tmin tmax full fuel) e ->
+     e = EoNError \/ exists es kept q, reach_err (perc_loop R es kept q) e).
+Proof. exact psir_both_rejected. Qed.
+
 (* rho selects int(round(N*rho)) (round half to even) DISTINCT nodes of the graph -- one node
    when neither is given -- and the run is the run from that explicit set *)
 Theorem C05_discrete_SIR_rho_selects_round_N_rho_distinct_nodes : forall g R trec ord r0o rho tmin tmax full fuel out,
@@ -190,6 +199,7 @@ Print Assumptions C05_requested_statuses.
 Print Assumptions C05_discrete_SIR_rho_and_infecteds_rejected.
 Print Assumptions C05_basic_discrete_SIR_rho_and_infecteds_rejected.
 Print Assumptions C05_basic_discrete_SIS_rho_and_infecteds_rejected.
+Print Assumptions C05_percolation_based_discrete_SIR_rho_and_infecteds_rejected.
 Print Assumptions C05_discrete_SIR_rho_selects_round_N_rho_distinct_nodes.
 Print Assumptions C05_basic_discrete_SIS_rho_selects_round_N_rho_distinct_nodes.
 Print Assumptions C05_discrete_SIR_rho_run_rows.
